@@ -617,8 +617,25 @@ class _RunInterp(ObjInterp):
     def external(self, name, args, kwargs):
         if name == "json.dumps":
             self.json_dumped = args[0]
-            return ("json.dumps", args[0])
+            return abstract_json_dumps(args[0], **kwargs)
         return super().external(name, args, kwargs)
+
+
+def abstract_json_dumps(v, **kwargs):
+    """json.dumps of a value that may hold lock-step words: the real encoder, once per exemplar"""
+    import json
+    from .deriv import _leaves, _project
+    width = None
+    for x in _leaves([v]):
+        width = len(x.ex)
+        break
+    try:
+        if width is None:
+            return json.dumps(v, **kwargs)
+        outs = [json.dumps(_project(copy.deepcopy(v), i), **kwargs) for i in range(width)]
+    except (TypeError, ValueError) as e:
+        raise PyRaise(e)
+    return outs[0] if all(o == outs[0] for o in outs[1:]) else W(outs)
 
 
 def run_tail(ctx, flat, **run_kwargs):
